@@ -176,18 +176,36 @@ def parse_strace(fn):
 
 def events_for_chunk(args):
     """Build the log lines of one driver run.  Returns dict(lines=[...], stats)."""
-    strace_fn, facts_fn, scn_by_id, tree_root, have_strace = args
+    strace_fns, facts_fns, scn_by_id, tree_root, have_strace = args
     facts = {}
-    with open(facts_fn) as f:
-        for ln in f:
-            x = json.loads(ln)
-            facts[x["id"]] = x
+    for facts_fn in facts_fns:
+        with open(facts_fn) as f:
+            for ln in f:
+                try:
+                    x = json.loads(ln)
+                except ValueError:
+                    continue            # torn last line of a crashed driver
+                if x.get("pre") and x["id"] in facts:
+                    continue
+                facts[x["id"]] = x
+    missing = sorted(set(scn_by_id) - set(facts))
+    if missing:
+        raise vlib.ToolError("no record for scenarios %s" % missing[:10])
+    for x in facts.values():
+        if x.get("pre"):
+            # the process died inside this operation: no listing; the victim's bytes are read here
+            x["crashed"] = 1
+            try:
+                with open(os.path.join(x["guard"], "victim")) as vf:
+                    x["victim_same"] = 1 if vf.read() == "VICTIM %d" % x["id"] else 0
+            except OSError:
+                x["victim_same"] = 0
     per = {}   # id -> list of sys/rd events
     stats = {"syscalls_seen": 0, "mutating_in_op": 0, "failed_mutating_in_op": 0, "reads_in_op": 0}
     if have_strace:
         cur, inop = None, False
         seen = set()
-        for rec in parse_strace(strace_fn):
+        for rec in (r for fn in strace_fns for r in list(parse_strace(fn)) + [("MARK", -1, "op-end", None, None)]):
             if rec[0] == "MARK":
                 _, n, what, _, _ = rec
                 if what == "op-begin":
@@ -251,7 +269,7 @@ def events_for_chunk(args):
                     mp = ["OUTSIDE"] + e["phys"]
                 if mp not in touched:
                     touched.append(mp)
-        for ch in fa["changes"]:
+        for ch in fa.get("changes") or []:
             lines.append({"ev": "chg", "n": sid, "what": ch["what"], "path": lex_segs(os.path.realpath(os.path.dirname(ch["path"])) + "/" + os.path.basename(ch["path"]))})
         lines.append({"ev": "vic", "n": sid, "same": fa["victim_same"]})
         # (a tar header cannot carry a NUL: the code sees a truncated name, so those archives are not compared)
@@ -263,6 +281,8 @@ def events_for_chunk(args):
 
 # ---------------------------------------------------------------------------- the check
 def strace_usable(ctx):
+    if os.environ.get("VERIF_C20_NOSTRACE"):
+        return False, "disabled by VERIF_C20_NOSTRACE (test of the fallback)"
     if not shutil.which("strace"):
         return False, "strace not installed"
     probe = ctx.path("c20", "probe.txt")
@@ -316,16 +336,21 @@ def run(ctx):
     th = threading.Thread(target=mc)
     th.start()
 
-    with concurrent.futures.ThreadPoolExecutor(max_workers=3) as ex:
+    with concurrent.futures.ThreadPoolExecutor(max_workers=4) as ex:
         f_gen = ex.submit(ctx.tlc_scenarios, "PathSafeGen", "C20_gen.cfg" if ctx.thorough else "C20_gen_quick.cfg", workers=4,
                           label="scenario space of PathSafe", timeout=1500)
         f_links = ex.submit(ctx.tlc_scenarios, "PathSafeGen", "C20_gen_links.cfg", workers=2, label="link archives, verdict if materialised")
         f_asis = ex.submit(ctx.tlc_scenarios, "PathSafeGen", "C20_gen_lay_asis.cfg", workers=2,
                            label="layout scenarios, verdict of the as-found model")
-        gen, raw_links, asis = f_gen.result(), f_links.result(), f_asis.result()
+        f_lex = ex.submit(ctx.tlc_scenarios, "PathSafeGen", "C20_gen_links_lex.cfg", workers=2,
+                          label="link archives, verdict if materialised behind a lexical guard")
+        gen, raw_links, asis, lex_links = f_gen.result(), f_links.result(), f_asis.result(), f_lex.result()
     space = gen["scenarios"]
     vlib.log("C20: %d scenarios generated at %.0fs" % (len(space), time.time() - ctx.t0))
     dangerous = {json.dumps(s["ents"], sort_keys=True) for s in raw_links["scenarios"] if s["esc"] == 1}
+    subtle = {json.dumps(s["ents"], sort_keys=True) for s in lex_links["scenarios"] if s["esc"] == 1}
+    if not subtle or not subtle <= dangerous or len(dangerous) < 500:
+        raise vlib.ToolError("link archive classification by the model looks wrong: %d dangerous, %d subtle" % (len(dangerous), len(subtle)))
     asis_esc = {(s["op"], s["h"], s["place"], s["wm"], s["chk"]) for s in asis["scenarios"] if s["esc"] == 1}
     by = {}
     for s in space:
@@ -339,15 +364,22 @@ def run(ctx):
     def short(s):
         return len(s["segs"]) <= 2
     if ctx.thorough:
-        n_art, n_tar, n_lnk, n_imp = 14000, 12000, 2500, 1200
+        n_art, n_tar, n_lnk, n_imp = 14000, 12000, 0, 4000
     else:
-        n_art, n_tar, n_lnk, n_imp = 500, 500, 250, 150
+        n_art, n_tar, n_lnk, n_imp = 500, 500, 200, 150
     chosen = list(by["lay"])
     chosen += [s for s in by["art"] if short(s)] + vlib.sample(rng, [s for s in by["art"] if not short(s)], n_art)
     chosen += [s for s in by["tar"] if short(s)] + vlib.sample(rng, [s for s in by["tar"] if not short(s)], n_tar)
-    dang = [s for s in by["lnk"] if json.dumps(s["ents"], sort_keys=True) in dangerous]
-    chosen += vlib.sample(rng, dang, 400 if not ctx.thorough else len(dang))
-    chosen += vlib.sample(rng, [s for s in by["lnk"] if json.dumps(s["ents"], sort_keys=True) not in dangerous], n_lnk)
+    def key(s):
+        return json.dumps(s["ents"], sort_keys=True)
+    if ctx.thorough:
+        chosen += by["lnk"]
+    else:
+        # every archive that defeats a lexical guard, every dangerous two-entry archive and every dangerous hard-link archive,
+        # a sample of the dangerous chains, a sample of the harmless rest
+        must_have = [s for s in by["lnk"] if key(s) in subtle or (key(s) in dangerous and (len(s["ents"]) == 2 or s["ents"][0]["k"] == "hard"))]
+        chains = [s for s in by["lnk"] if key(s) in dangerous and s not in must_have]
+        chosen += must_have + vlib.sample(rng, chains, 250) + vlib.sample(rng, [s for s in by["lnk"] if key(s) not in dangerous], n_lnk)
     chosen += vlib.sample(rng, by["imp"], n_imp)
     rng.shuffle(chosen)
     for i, s in enumerate(chosen):
@@ -361,23 +393,47 @@ def run(ctx):
     chunks = [chosen[i::nchunks] for i in range(nchunks)]
     jobs = []
 
+    crashes = []
+
     def drive(i):
         ch = chunks[i]
-        fn = ctx.path("c20", "scn-%d.jsonl" % i)
-        with open(fn, "w") as f:
-            for s in ch:
-                f.write(json.dumps(s) + "\n")
-        facts = ctx.path("c20", "facts-%d.jsonl" % i)
-        st = ctx.path("c20", "strace-%d.txt" % i)
-        argv = [os.path.join(ctx.bin, "c20drv"), "-in", fn, "-out", facts, "-root", os.path.join(tree_root, "w%d" % i, "r"),
-                "-regctl", os.path.join(ctx.bin, "regctl")]
-        if have_strace:
-            argv = ["strace", "-f", "--seccomp-bpf", "-y", "-xx", "-s", "4300", "-o", st, "-e", "trace=" + TRACE_SET] + argv
-        r = ctx.run(argv, timeout=3000, cwd=ctx.path("c20", "x")[:-2])
-        meta = json.loads(r.stdout.strip().splitlines()[-1])
-        if meta["scenarios"] != len(ch):
-            raise vlib.ToolError("driver ran %d of %d scenarios" % (meta["scenarios"], len(ch)))
-        return (st, facts, {s["id"]: s for s in ch}, tree_root, have_strace)
+        remaining = list(ch)
+        sts, fcts = [], []
+        for attempt in range(12):
+            fn = ctx.path("c20", "scn-%d-%d.jsonl" % (i, attempt))
+            with open(fn, "w") as f:
+                for s in remaining:
+                    f.write(json.dumps(s) + "\n")
+            facts = ctx.path("c20", "facts-%d-%d.jsonl" % (i, attempt))
+            st = ctx.path("c20", "strace-%d-%d.txt" % (i, attempt))
+            argv = [os.path.join(ctx.bin, "c20drv"), "-in", fn, "-out", facts, "-root", os.path.join(tree_root, "w%d" % (i + 100 * attempt), "r"),
+                    "-regctl", os.path.join(ctx.bin, "regctl")]
+            if have_strace:
+                argv = ["strace", "-f", "--seccomp-bpf", "-y", "-xx", "-s", "4300", "-o", st, "-e", "trace=" + TRACE_SET] + argv
+            r = ctx.run(argv, timeout=3000, cwd=ctx.path("c20", "x")[:-2], check=False)
+            sts.append(st)
+            fcts.append(facts)
+            if r.returncode == 0:
+                break
+            # the driver died (a panic in a goroutine of the code under test kills the process): not a verdict about
+            # containment; note it, skip that scenario, go on with the rest
+            last = None
+            if os.path.exists(facts):
+                for ln in open(facts):
+                    try:
+                        last = json.loads(ln)
+                    except ValueError:
+                        pass
+            if last is None or not last.get("pre"):
+                raise vlib.ToolError("driver failed rc=%d outside an operation:\n%s" % (r.returncode, r.stderr[-3000:]))
+            crashes.append({"scenario": last["id"], "stderr": r.stderr[:400]})
+            ids = [s["id"] for s in remaining]
+            remaining = remaining[ids.index(last["id"]) + 1:]
+            if not remaining:
+                break
+        else:
+            raise vlib.ToolError("driver of chunk %d died more than 12 times" % i)
+        return (sts, fcts, {s["id"]: s for s in ch}, tree_root, have_strace)
 
     with concurrent.futures.ThreadPoolExecutor(max_workers=nchunks) as ex:
         jobs = list(ex.map(drive, range(nchunks)))
@@ -386,6 +442,8 @@ def run(ctx):
         built = list(ex.map(events_for_chunk, jobs))
     # nothing may have appeared next to the per-driver roots
     stray = sorted(x for x in os.listdir(tree_root) if not re.match(r"^w\d+$", x))
+    if crashes:
+        vlib.log("C20: the driver process died in %d scenarios (recorded, not judged): %s" % (len(crashes), crashes[0]["stderr"][:200]))
 
     # ---- validate: every log line against the monitor; rejected scenarios are neutralised
     stats = {"syscalls_seen": 0, "mutating_in_op": 0, "failed_mutating_in_op": 0, "reads_in_op": 0}
@@ -399,19 +457,17 @@ def run(ctx):
         all_facts.update(b["facts"])
         merged[i % nlogs] += b["lines"]
     for i, raw in enumerate(merged):
-        b = {"lines": raw}
-        lines = [{k: v for k, v in e.items() if k != "raw"} for e in b["lines"]]
         if i == 0 and stray:
-            lines.append({"ev": "scn", "n": 0, "allow": [lex_segs(tree_root) + ["w0"]], "ep": "-", "segs": [], "lead": 0, "trail": 0,
-                          "unpack": 0, "strip": 0, "ents": [], "op": "-", "h": "-", "place": "-", "wm": "-", "chk": 0})
+            raw.append({"ev": "scn", "n": 0, "allow": [lex_segs(tree_root) + ["w0"]], "ep": "-", "segs": [], "lead": 0, "trail": 0,
+                        "unpack": 0, "strip": 0, "ents": [], "op": "-", "h": "-", "place": "-", "wm": "-", "chk": 0})
             for x in stray:
-                lines.append({"ev": "chg", "n": 0, "what": "new", "path": lex_segs(tree_root) + [x]})
+                raw.append({"ev": "chg", "n": 0, "what": "new", "path": lex_segs(tree_root) + [x]})
+        lines = [{k: v for k, v in e.items() if k != "raw"} for e in raw]
         log = ctx.path("c20", "log-%d.ndjson" % i)
         with open(log, "w") as f:
             for e in lines:
                 f.write(json.dumps(e, sort_keys=True) + "\n")
-        logs.append((log, lines, b["lines"] + [{}] * (len(lines) - len(b["lines"]))))
-
+        logs.append((log, lines, raw))
     vlib.log("C20: %d log lines built at %.0fs" % (sum(len(x[1]) for x in logs), time.time() - ctx.t0))
 
     def write_log(fn, lines):
@@ -466,11 +522,11 @@ def run(ctx):
         if not v2["accepted"]:
             raise vlib.ToolError("scan pass did not reach the end of the log:\n" + v2["output"][-2000:])
         flagged = []
-        for m in re.finditer(r'<<"REJECT", (\d+), "(.*)">>', v2["output"]):
-            if (int(m.group(1)), m.group(2)) not in flagged:
-                flagged.append((int(m.group(1)), m.group(2)))
+        for m in re.finditer(r'"REJECT\|(\d+)\|(\d+)\|(.*)"', v2["output"]):
+            if (int(m.group(1)), m.group(3), int(m.group(2))) not in flagged:
+                flagged.append((int(m.group(1)), m.group(3), int(m.group(2))))
         runs = 2
-        for n2, detail2 in flagged:
+        for n2, detail2, at in flagged:
             idx = next(i for i, x in enumerate(lines) if x.get("n") == n2 and x["ev"] == "scn")
             a2, b2 = scenario_span(lines, idx)
             sg = sig_of(scn_by_id[n2], detail2) if n2 in scn_by_id else "harness-tree:stray"
@@ -492,8 +548,7 @@ def run(ctx):
                 detail2 = (v3.get("detail") or v3["reason"]).strip('"')
                 how = "invariant"
             if ev is None:
-                # the first fact of the scenario that the scan latched on is not printed; report the scenario header
-                ev = next((x for x in rawlines[a2:b2] if x["ev"] in ("sys", "chg", "vic", "rd") and x.get("n") == n2), rawlines[a2])
+                ev = rawlines[b + at - 1]       # the line at which TLC set the latch (scan log starts at lines[b])
             out.append((detail2, ev, [x for x in rawlines[a2:b2] if x["ev"] in ("sys", "chg", "vic", "rd")], how))
         return out, st, tr, drift, runs
 
@@ -515,7 +570,10 @@ def run(ctx):
         states += st
         trans += tr
         drift |= dr
-        for detail, e, same, how in rej:
+    allrej = [x for res in results for x in res[0]]
+    allrej.sort(key=lambda x: 0 if x[3] == "invariant" else 1)      # replay files come from invariant rejections
+    for _ in (1,):
+        for detail, e, same, how in allrej:
             if detail.startswith("tooling"):
                 raise vlib.ToolError("malformed trace line: %s %s" % (detail, json.dumps(e)[:300]))
             n = e["n"]
@@ -573,7 +631,7 @@ def run(ctx):
     p2 = ctx.path("c20", "demo-all.ndjson")
     write_log(p2, demo_lines + [dict(demo_lines[0], n=0)])
     vd = ctx.validate("PathSafeTrace", "C20_trace_scan.cfg", p2)
-    got = {int(x) for x in re.findall(r'<<"REJECT", (\d+), ', vd["output"])}
+    got = {int(x) for x in re.findall(r'"REJECT\|(\d+)\|', vd["output"])}
     for i, name in enumerate(demo_names):
         if 900000 + i not in got:
             raise vlib.ToolError("binding demo %s not rejected: the trace spec does not bind" % name)
@@ -606,6 +664,8 @@ def run(ctx):
         "strace": bool(have_strace), "strace_note": "" if have_strace else "strace unavailable (%s): listings and victim check only" % why,
         "syscall_stats": stats, "operations_returning_error": errs,
         "panics_recorded_not_judged": [list(p) for p in panics],
+        "process_crashes_recorded_not_judged": [dict(c, scenario={k: scn_by_id[c["scenario"]][k] for k in ("ep", "op", "h", "place", "wm")})
+                                                for c in crashes[:10]],
         "drift_scenarios_vs_design_model": len(drift), "drift_sample": sorted(drift)[:10],
         "model_vs_code_layout": model_vs_code,
         "entry_points": ["regctl artifact get --output [--strip-dirs] (binary)", "archive.Extract", "regclient.ImageImport -> ocidir",
